@@ -99,3 +99,6 @@ package migrator
 //@ immutable Config.IgnoreRelationshipsWhenMigrating
 //@   writers gorm.Open
 //@   tags C20
+//@ immutable DB.Config
+//@   writers gorm.(*DB).Session gorm.(*DB).getInstance gorm.Open gorm.(*DB).*
+//@   tags C20
